@@ -167,6 +167,27 @@ def validator_refusals(ctx, prog):
                 if a[0] in ("Lt", "Le") and ("core::slice::<impl [T]>::len(" in a[2] or a[1].startswith("Add(Sub((POS as usize)") or a[1].startswith("Sub((POS as usize)")):
                     continue
                 atoms.add(a)
+            if v is None:
+                # `if c { return false } true` written as the tail expression `!c` (or `c`): two outcomes, one per truth value of c
+                from ..sym import is_identity_fn
+                e = strip(sy.rvalue(s["rv"]))
+                neg = False
+                for _ in range(6):
+                    if e[0] == "un" and e[1] == "Not":
+                        e = strip(e[2])
+                        neg = not neg
+                    elif e[0] == "call" and len(e[2]) == 1 and is_identity_fn(prog, e[1]):
+                        e = strip(e[2][0])
+                    else:
+                        break
+                if e[0] == "bin" and e[1] in ("Lt", "Le", "Gt", "Ge", "Eq", "Ne"):
+                    NEG = {"Lt": "Ge", "Le": "Gt", "Gt": "Le", "Ge": "Lt", "Eq": "Ne", "Ne": "Eq"}
+                    pos = (e[1], N(canon(strip(e[2]))), N(canon(strip(e[3]))))
+                    negd = (NEG[e[1]], pos[1], pos[2])
+                    # value of the body when the comparison holds / does not hold
+                    sites.append((0 if neg else 1, frozenset(atoms | {pos}), s["sp"]))
+                    sites.append((1 if neg else 0, frozenset(atoms | {negd}), s["sp"]))
+                    continue
             sites.append((v, frozenset(atoms), s["sp"]))
     nt = ("Ne", "ITEM", "TERMINATOR=0")
     seq1 = "Sub((MAX_SEQUENCE_SIZE=3 as u8),1)"
